@@ -489,6 +489,16 @@ def _split_tuple_assignments(tree):
                         args.append(a)
                 if ok:
                     n = ast.copy_location(ast.Call(func=n.func, args=args, keywords=n.keywords), n)
+            # attribute_dict.get(k, d)  ->  attribute_dict[k] if k in attribute_dict else d     (the serialisation protocol's plain dict;
+            # the subscript form under a membership test is what the restore rules read)
+            if isinstance(n.func, ast.Attribute) and n.func.attr == "get" and isinstance(n.func.value, ast.Name) and n.func.value.id == "attribute_dict" \
+                    and 1 <= len(n.args) <= 2 and not n.keywords and isinstance(n.args[0], ast.Constant) and isinstance(n.args[0].value, str):
+                import copy as _c
+                d_ = ast.Name(id="attribute_dict", ctx=ast.Load())
+                return ast.copy_location(ast.IfExp(
+                    test=ast.Compare(left=_c.deepcopy(n.args[0]), ops=[ast.In()], comparators=[d_]),
+                    body=ast.Subscript(value=ast.Name(id="attribute_dict", ctx=ast.Load()), slice=_c.deepcopy(n.args[0]), ctx=ast.Load()),
+                    orelse=n.args[1] if len(n.args) == 2 else ast.Constant(value=None)), n)
             # operator.lt(a, b) -> a < b
             if isinstance(n.func, ast.Attribute) and isinstance(n.func.value, ast.Name) and n.func.value.id == "operator" and n.func.attr in OPS \
                     and len(n.args) == 2 and not n.keywords and not any(isinstance(a, ast.Starred) for a in n.args):
@@ -767,6 +777,11 @@ def _split_tuple_assignments(tree):
                 a, b = out[i], out[i + 1]
                 if not (isinstance(a, ast.If) and a.orelse and isinstance(b, ast.Return) and isinstance(b.value, ast.Call) and i + 1 == len(out) - 1):
                     continue
+                # only a call of the enclosing function itself (a recursive search step): other tail calls keep their single site
+                fname = self._fn_names[-1] if getattr(self, "_fn_names", None) else None
+                callee = b.value.func.id if isinstance(b.value.func, ast.Name) else (b.value.func.attr if isinstance(b.value.func, ast.Attribute) else None)
+                if fname is None or callee != fname:
+                    continue
                 arms = a.body + a.orelse
                 if not all(isinstance(x, ast.Assign) and len(x.targets) == 1 and isinstance(x.targets[0], ast.Name) for x in arms):
                     continue
@@ -787,8 +802,14 @@ def _split_tuple_assignments(tree):
         def visit_FunctionDef(self, n):
             n = self._test_temps(n)
             n = self._attr_built_lists(n)
-            n.body = self._sink_tail_call(n.body)
-            n = self.generic_visit(n)
+            if not hasattr(self, "_fn_names"):
+                self._fn_names = []
+            self._fn_names.append(n.name)
+            try:
+                n.body = self._sink_tail_call(n.body)
+                n = self.generic_visit(n)
+            finally:
+                self._fn_names.pop()
             if any(isinstance(x, ast.FunctionDef) for st in n.body for x in ast.walk(st)):
                 def blocks(stmts):
                     stmts = self._unswitch_defs(stmts)
